@@ -206,7 +206,12 @@ def get_dependencies_of_target(
             # functions.
             for defn in target.defs:
                 # TODO: Recurse into top-level statements and class bodies but skip functions.
-                if not isinstance(defn, (ClassDef, Decorator, FuncDef, OverloadedFuncDef)):
+                if isinstance(defn, ClassDef):
+                    # Regenerate the dependencies of the class definition itself (base class
+                    # expressions, inherited attributes): they belong to the module top level.
+                    # Methods are visited too; that can only add dependencies to their own targets.
+                    defn.accept(visitor)
+                elif not isinstance(defn, (Decorator, FuncDef, OverloadedFuncDef)):
                     defn.accept(visitor)
         elif isinstance(target, FuncBase) and target.info:
             # It's a method.
